@@ -155,8 +155,8 @@ func genCfg(r *rand.Rand) cfgScript {
 	return c
 }
 
-var codeHows = []string{"mut", "mut", "stale", "long", "short", "empty", "other", "lit"}
-var hashHows = []string{"mut", "stale", "empty", "other", "lit"}
+var codeHows = []string{"mut", "mut", "stale", "long", "short", "empty", "other", "lit", "dropzero", "addzero", "plus", "tspace", "lspace", "newline", "fullwidth", "doubled"}
+var hashHows = []string{"mut", "stale", "empty", "other", "lit", "upper", "upper", "mixed", "lspace", "tspace", "newline", "0x", "doubled", "short", "long"}
 
 func genVerify(r *rand.Rand, ps []pair, q pair) opScript {
 	o := opScript{K: "verify", A: q.a, P: q.p, Code: "right", Hash: "right", Pos: r.Intn(32)}
@@ -765,6 +765,24 @@ func corpus() ([]*script, []*nonceScript) {
 		c3 := c
 		c3.TTL = -1
 		hs = append(hs, &script{Class: "corpus", Cfg: c3, Ops: []opScript{send("86", "139"), right("86", "139")}})
+	}
+	// near-misses of the right hash and of the right code, one after the other against one sent code: none may verify,
+	// the right pair still does afterwards; with the hash of another pair's send and with the previous send's hash too
+	for _, mock := range []bool{true, false} {
+		c := base
+		c.Mock = mock
+		c.MaxVerify = 64
+		c.MaxCount = 5
+		a, p, a2, p2 := "86", "13900012345", "852", "13900012345"
+		ops := []opScript{send(a2, p2), send(a, p), send(a, p)}
+		for i, h := range []string{"upper", "mixed", "mixed", "mut", "lspace", "tspace", "newline", "0x", "doubled", "short", "long", "empty", "other", "stale"} {
+			ops = append(ops, opScript{K: "verify", A: a, P: p, Code: "right", Hash: h, Pos: i, OA: a2, OP: p2})
+		}
+		for i, cd := range []string{"dropzero", "addzero", "plus", "fullwidth", "newline", "tspace", "lspace", "doubled", "short", "long", "empty", "stale", "other"} {
+			ops = append(ops, opScript{K: "verify", A: a, P: p, Code: cd, Hash: "right", Pos: i, OA: a2, OP: "139"})
+		}
+		ops = append(ops, opScript{K: "verify", A: a, P: p, Code: "dropzero", Hash: "upper"}, right(a, p), right(a2, p2))
+		hs = append(hs, &script{Class: "corpus", Cfg: c, Ops: ops})
 	}
 	// defect 13: the last character of the alphabet must be reachable
 	ns := []*nonceScript{
